@@ -217,6 +217,21 @@ def modifyMut {V : Type} (re : Bytes → Bytes → Bool) (acceptWc : Bool) (f : 
           | some (p, child) => n.setRegexps (setRe n.regexps p (modifyMut re acceptWc f child rest))
           | none => n
 
+
+-- ------------------------------------------------------- for_each_value --
+
+mutual
+/-- `for_each_value_mut`: apply `f` to every stored value -/
+def Node.mapV {V : Type} (f : V → V) : Node V → Node V
+  | .mk kv wc ch rs => .mk (mapSnd f kv) (mapSnd f wc) (mapChildrenV f ch) (mapRegexpsV f rs)
+def mapChildrenV {V : Type} (f : V → V) : List (Seg × Node V) → List (Seg × Node V)
+  | [] => []
+  | (s, n) :: t => (s, Node.mapV f n) :: mapChildrenV f t
+def mapRegexpsV {V : Type} (f : V → V) : List (Bytes × Node V) → List (Bytes × Node V)
+  | [] => []
+  | (p, n) :: t => (p, Node.mapV f n) :: mapRegexpsV f t
+end
+
 -- ------------------------------------------------------------ splitting --
 
 /-- labels of a byte string split at `.`, rightmost label first
